@@ -38,6 +38,182 @@ EXPLANATION = (
 )
 
 
+class _Misaligned(Exception):
+    pass
+
+
+def _index_layout(t, land, samp, dirs, fs):
+    """Follows *where every element goes* through the expression of the sampled indices: an array is a list of axes, an axis the
+    row-major list of the atomic factors it merges (coord, det, dir of `detector_dirs.coords`; row, col, smp of the rotation
+    matrices).  Returns the list of axes, or None when some step is not followed exactly (never a guess); raises _Misaligned
+    when a reshape cuts a merged axis at a place that is not a factor boundary for generic sizes (definite scrambling)."""
+    coords = ('attr', dirs, 'coords')
+    rot_m = ('call', ('var', 'get_rotation_matrix'), (samp,), ())
+    REST = 'REST'
+
+    def const_int(x):
+        if x[0] == 'const' and x[1].lstrip('-').isdigit():
+            return int(x[1])
+        if x[0] == 'unop' and x[1] == 'neg' and x[2][0] == 'const' and x[2][1].isdigit():
+            return -int(x[2][1])
+        return None
+
+    def dim(x):
+        """factors of a size term: list of names, [ANY3] for the literal 3, REST for -1, None when unknown"""
+        c = const_int(x)
+        if c == -1:
+            return REST
+        if c == 1:
+            return []
+        if c == 3:
+            return ['ANY3']
+        if c is not None:
+            return None
+        if x[0] == 'binop' and x[1] == '*':
+            a, b = dim(x[2]), dim(x[3])
+            if a is None or b is None or a == REST or b == REST:
+                return None
+            return a + b
+        if x[0] == 'sub' and x[1][0] == 'attr' and x[1][2] == 'shape' and const_int(x[2]) is not None:
+            L = lay(x[1][1])
+            i = const_int(x[2])
+            return list(L[i]) if L is not None and -len(L) <= i < len(L) else None
+        if x[0] == 'item' and x[1][0] == 'sub' and x[1][1][0] == 'attr' and x[1][1][2] == 'shape' and x[1][2][0] == 'slice' and x[1][2][2] == ('none',) and x[1][2][3] == ('none',):
+            a = const_int(x[1][2][1]) if x[1][2][1] != ('none',) else 0
+            L = lay(x[1][1][1])
+            if a is None or L is None:
+                return None
+            if a < 0:
+                a += len(L)
+            i = a + x[2]
+            return list(L[i]) if isinstance(x[2], int) and 0 <= i < len(L) else None
+        return None
+
+    def take(seq, want, from_left):
+        n = len(want)
+        if len(seq) < n:
+            return None
+        got = seq[:n] if from_left else seq[len(seq) - n:]
+        rest = seq[n:] if from_left else seq[:len(seq) - n]
+        if want == ['ANY3']:
+            return (got, rest) if got[0] in ('coord', 'row', 'col') else None
+        if 'ANY3' in want:
+            return None
+        if sorted(got) == sorted(want):
+            return got, rest
+        raise _Misaligned(f'a reshape gives an axis the size of {"*".join(want)} where the elements are laid out by {"*".join(got)}')
+
+    def reshape(L, dims):
+        seq = [f for ax in L for f in ax if f not in unit]
+        ds = [dim(d) for d in dims]
+        if any(d is None for d in ds) or sum(d == REST for d in ds) > 1:
+            return None
+        # a factor known to be of size one on this path (`ndir == 1`) does not constrain where a reshape cuts
+        ds = [d if d == REST else [f for f in d if f not in unit] for d in ds]
+        out_l, out_r = [], []
+        k = ds.index(REST) if REST in ds else len(ds)
+        for d in ds[:k]:
+            r = take(seq, d, True)
+            if r is None:
+                return None
+            out_l.append(r[0])
+            seq = r[1]
+        for d in reversed(ds[k + 1:]):
+            r = take(seq, d, False)
+            if r is None:
+                return None
+            out_r.insert(0, r[0])
+            seq = r[1]
+        if REST in ds:
+            return out_l + [seq] + out_r
+        return out_l if not seq else None
+
+    memo: dict = {}
+
+    def lay(x):
+        if x in memo:
+            return memo[x]
+        memo[x] = r = lay_(x)
+        return r
+
+    def lay_(x):
+        if x == coords:
+            return [['coord'], ['det'], ['dir']]
+        if x == rot_m:
+            return [['row'], ['col'], ['smp']]
+        if x[0] == 'T' and len(x) == 2 or (x[0] == 'attr' and x[2] == 'T'):
+            L = lay(x[1])
+            return list(reversed(L)) if L is not None else None
+        if x[0] == 'call' and x[1][0] == 'attr' and x[1][2] == 'reshape' and x[1][1] not in (('var', 'jnp'), ('var', 'np')) and not x[3]:
+            L = lay(x[1][1])
+            dims = x[2][0][1:] if len(x[2]) == 1 and x[2][0][0] == 'tuple' else x[2]
+            return reshape(L, dims) if L is not None else None
+        if x[0] == 'call' and x[1][0] == 'attr' and x[1][2] in ('transpose', 'swapaxes') and x[1][1] not in (('var', 'jnp'), ('var', 'np')) and not x[3]:
+            L = lay(x[1][1])
+            ints = [const_int(a) for a in (x[2][0][1:] if len(x[2]) == 1 and x[2][0][0] == 'tuple' else x[2])]
+            if L is None or any(i is None or not -len(L) <= i < len(L) for i in ints):
+                return None
+            if x[1][2] == 'swapaxes':
+                if len(ints) != 2:
+                    return None
+                L = list(L)
+                L[ints[0]], L[ints[1]] = L[ints[1]], L[ints[0]]
+                return L
+            if not ints:
+                return list(reversed(L))
+            return [L[i] for i in ints] if sorted(i % len(L) for i in ints) == list(range(len(L))) else None
+        if x[0] == 'call' and x[1] == ('attr', ('var', 'jnp'), 'einsum') and len(x[2]) == 3 and x[2][0][0] == 'const' and not x[3]:
+            try:
+                subs = eval(x[2][0][1]).replace(' ', '')
+            except Exception:  # noqa: BLE001
+                return None
+            A, B = lay(x[2][1]), lay(x[2][2])
+            if A is None or B is None or '->' not in subs or subs.count(',') != 1 or '.' in subs:
+                return None
+            ins, out = subs.split('->')
+            a, b = ins.split(',')
+            if len(a) != len(A) or len(b) != len(B) or len(set(a)) != len(a) or len(set(b)) != len(b) or len(set(out)) != len(out):
+                return None
+            ax = dict(zip(a, A))
+            bx = dict(zip(b, B))
+            shared = set(a) & set(b)
+            # exactly the matrix column against the coordinate axis is summed; everything else is kept once
+            if len(shared) != 1 or set(out) != (set(a) | set(b)) - shared:
+                return None
+            j = next(iter(shared))
+            if {tuple(ax[j]), tuple(bx[j])} != {('col',), ('coord',)}:
+                if {tuple(ax[j]), tuple(bx[j])} == {('row',), ('coord',)}:
+                    raise _Misaligned('the contraction sums the matrix ROW index against the coordinate axis (the transposed rotation is applied)')
+                return None
+            return [ax.get(c) or bx.get(c) for c in out]
+        if x[0] == 'call' and x[1] == ('attr', land, 'world2index') and len(x[2]) == 2 and not x[3]:
+            p_, q_ = x[2]
+            if not (p_[0] == 'item' and q_[0] == 'item' and p_[1] == q_[1] and p_[2] == 0 and q_[2] == 1):
+                return None
+            ang = p_[1]
+            if not (ang[0] == 'call' and ang[1] == ('var', 'vec2dir') and len(ang[2]) == 1 and ang[2][0][0] == 'star' and not ang[3]):
+                return None
+            L = lay(ang[2][0][1])
+            if L is None or not L or L[0] != ['row']:
+                return None
+            return L[1:]
+        return None
+
+    unit: set = set()
+    for f in fs:
+        if f[0] == 'eq' and ('const', '1') in f[1] and len(f[1]) == 2:
+            other = next(iter(f[1] - {('const', '1')}))
+            d = dim(other)
+            if isinstance(d, list) and len(d) == 1 and d != ['ANY3']:
+                unit.add(d[0])
+    memo.clear()
+    L = lay(t)
+    if L is None:
+        return None
+    L = [[f for f in ax if f not in unit] for ax in L]
+    return [ax for ax in L if ax], unit
+
+
 def _peel_layout(t):
     """Strips wrappers that only rearrange elements: T(x) / x.T / x.transpose(..) / x.reshape(..) / x.swapaxes(..) / x.squeeze(..) /
     jnp.transpose|reshape|moveaxis|swapaxes|squeeze(x, ..)."""
@@ -99,7 +275,27 @@ def run(ctx, ck) -> None:
         ang = base[2][0][1] if base is not None and base[0] == 'call' and base[1] == ('attr', land, 'world2index') and len(base[2]) == 2 and base[2][0][0] == 'item' else None
         ok_idx = ang is not None and base[2] == (('item', ang, 0), ('item', ang, 1)) and ang[0] == 'call' and ang[1] == ('var', 'vec2dir') and len(ang[2]) == 1 and ang[2][0][0] == 'star'
         rearranged = False
-        if not ok_idx:
+        layout_verdict = None  # (ok, text) when the element order of a non-standard index expression is followed exactly
+        if not ok_idx and idx is not None:
+            from ..terms import facts as _path_facts
+
+            try:
+                lv = _index_layout(idx, land, samp, dirs, _path_facts(p))
+            except _Misaligned as exc:
+                layout_verdict = (False, str(exc))
+            else:
+                if lv is not None:
+                    got_l, unit = lv
+                    want_l = [ax for ax in (['det'], ['dir'], ['smp']) if ax[0] not in unit]
+                    text_l = '(' + ', '.join('*'.join(ax) for ax in got_l) + ')'
+                    layout_verdict = (got_l == want_l, f'the indices are laid out as {text_l}, the time-ordered data as (' + ', '.join(ax[0] for ax in want_l) + ')')
+        if layout_verdict is not None:
+            ck.expect('Q1', layout_verdict[0], proj_fn, 'following every element through the einsum / transpositions / reshapes: the indices are world2index(*vec2dir(*R . coords)) laid out as (detector, direction, sample)'
+                      + (' with the unit direction axis removed' if 'dir' not in layout_verdict[1].split(' as ')[-1] else ''),
+                      f'{layout_verdict[1]}: every sample reads the pixel of another (detector, direction) pair', instance=inst + ' indices', semantic=True)
+            ck.expect('Q3', layout_verdict[0] or 'ROW' not in layout_verdict[1], proj_fn, 'the contraction pairs the matrix column with the coordinate axis; rows, detectors, directions and samples are kept (followed through the rearranged operands)',
+                      f'{layout_verdict[1]}', instance=inst + ' einsum', semantic=True)
+        elif not ok_idx:
             # the same content under layout-only wrappers (.T, transpose, reshape, swapaxes, moveaxis, squeeze): what is computed is
             # recognised, *where each value lands* is a question about element order that this written-form clause cannot answer
             core = _peel_layout(idx)
@@ -107,14 +303,18 @@ def run(ctx, ck) -> None:
             if core is not idx and ang2 is not None and core[2] == (('item', ang2, 0), ('item', ang2, 1)) and ang2[0] == 'call' and ang2[1] == ('var', 'vec2dir') and len(ang2[2]) == 1 and ang2[2][0][0] == 'star':
                 rearranged = True
                 ang = ang2
-        if rearranged:
+        if layout_verdict is not None:
+            pass
+        elif rearranged:
             ck.incomplete('Q1', proj_fn, f'the sampled indices are world2index(*vec2dir(*rotated)) rearranged by transpositions / reshapes ({show(idx)[:120]}): whether every index stays at its '
                           '(detector, direction, sample) position is not decided by this clause', instance=inst + ' indices')
         else:
             ck.expect('Q1', ok_idx, proj_fn, 'indices = landscape.world2index(*vec2dir(*rotated))' + (' with the unit direction axis squeezed out' if reshaped else ''),
                       f'the sampled indices are {show(idx)[:160]}', instance=inst + ' indices')
         es = ang[2][0][1] if (ok_idx or rearranged) else None
-        if rearranged:
+        if layout_verdict is not None:
+            pass
+        elif rearranged:
             rot_m = ('call', ('var', 'get_rotation_matrix'), (samp,), ())
             known = es is not None and es[0] == 'call' and es[1] == ('attr', ('var', 'jnp'), 'einsum') and len(es[2]) == 3 and es[2][1] == rot_m and es[2][2] == ('attr', dirs, 'coords')
             if not known:
@@ -125,8 +325,9 @@ def run(ctx, ck) -> None:
         ok_es = es is not None and es[0] == 'call' and es[1] == ('attr', ('var', 'jnp'), 'einsum') and len(es[2]) == 3 and es[2][1] == rot_m and es[2][2] == ('attr', dirs, 'coords')
         subs = eval(es[2][0][1]).replace(' ', '') if ok_es and es[2][0][0] == 'const' else ''
         ok_subs = _einsum_ok(subs)
-        ck.expect('Q3', ok_es and ok_subs, proj_fn, f'rotated = einsum({subs!r}, rotation matrices, detector coords): the matrix column index is contracted with the coordinate index; rows, detectors, directions, samples kept',
-                  f'the rotation is applied as {show(es)[:120]}: the contraction does not pair the matrix column with the coordinate axis of the directions (or transposes the matrix)', instance=inst + ' einsum')
+        if layout_verdict is None:
+          ck.expect('Q3', ok_es and ok_subs, proj_fn, f'rotated = einsum({subs!r}, rotation matrices, detector coords): the matrix column index is contracted with the coordinate index; rows, detectors, directions, samples kept',
+                    f'the rotation is applied as {show(es)[:120]}: the contraction does not pair the matrix column with the coordinate axis of the directions (or transposes the matrix)', instance=inst + ' einsum')
         struct = ('call', ('attr', ('call', ('attr', ('var', 'StokesPyTree'), 'class_for'), (('attr', land, 'stokes'),), ()), 'structure_for'), (('attr', idx, 'shape'), ('attr', land, 'dtype')), ())
         want_ravel = ('call', ('var', 'RavelOperator'), (), (('in_structure', ('attr', land, 'structure')),))
         want_index = ('call', ('var', 'IndexOperator'), (idx,), (('in_structure', ('OUT', want_ravel)),))
